@@ -128,6 +128,7 @@ type Path struct {
 	knownPred map[string]*Term
 	curFrame *Frame
 	clockFree bool
+	concRand bool
 	timerOf  map[*Value]*VTimer
 }
 
